@@ -784,7 +784,7 @@ func (p *Prog) checkForwarding(fn *ssa.Function, e ssa.Value, errIdxOf func(*ssa
 	}
 	// directly returned?
 	direct := false
-	for _, ret := range returnsOf(fn) {
+	for _, ret := range plainReturnsOf(fn) {
 		i := errIdxOf(ret)
 		if i >= 0 && i < len(ret.Results) && (sameValue(ret.Results[i], e) || sameValue(derefFlow(ret.Results[i]), e)) {
 			if !knownNil(ret.Block(), e) {
@@ -1090,10 +1090,10 @@ func ruleP05Exit(p *Prog, r *Report) {
 		r.bad(rule, "run-error", p.instrPos(kongRun), "the command's error is discarded")
 		return
 	}
-	for i, ret := range returnsOf(run) {
+	for i, ret := range expandReturns(run) {
 		key := fmt.Sprintf("Run:return#%d", i)
 		code := retResult(ret, 0)
-		after := kongRun.Block().Dominates(ret.Block())
+		after := kongRun.Block().Dominates(blockIn(run, ret))
 		if k, ok := constInt(code); ok && k == 0 {
 			okk := after && knownNil(ret.Block(), rErr)
 			r.check(okk, rule, key+":zero", p.instrPos(ret), "status 0 only on the nil edge of the command error", "status 0 is returned on a path where the command error is not known to be nil")
@@ -1115,7 +1115,7 @@ func ruleP05Exit(p *Prog, r *Report) {
 		r.check(nn == nnNonNil, rule, key+":err-nonnil", p.instrPos(ret), "a non-zero status is accompanied by a non-nil error (main exits only then)", "a non-zero status may be accompanied by a nil error, so main would exit 0")
 	}
 	// when rErr != nil, no return yields 0: the region of the non-nil edge
-	for _, ret := range returnsOf(run) {
+	for _, ret := range expandReturns(run) {
 		if knownNonNil(ret.Block(), rErr) {
 			if k, ok := constInt(retResult(ret, 0)); ok && k == 0 {
 				r.bad(rule, "Run:error->zero", p.instrPos(ret), "status 0 on the command-error edge")
